@@ -99,6 +99,21 @@ class Weird:
         return NotImplemented
 
 
+class WeirdBox:
+    """repr is not Python code and embeds the repr() of a member (whose code representation differs from its plain repr)"""
+
+    def __init__(self, item):
+        self.item = item
+
+    def __repr__(self):
+        return "<WeirdBox " + repr(self.item) + ">"
+
+    def __eq__(self, other):
+        if type(other) is WeirdBox:
+            return other.item == self.item
+        return NotImplemented
+
+
 class Box:
     """hashable but mutable user object with a code-like repr"""
 
